@@ -13,6 +13,8 @@ Requests (one JSON object per line):
       -> {"e":exc}  (a constructor raises)
        | {"c05":{"r":[[i,v]..],"t":exc|null},          `C05.splitRunTagged`
           "c03":[[i,v]..],                              `tagOuts (C03.Split.runTrace (toSplit cs …))`   (theorem c05_split_agrees / _prefix)
+          "c03x":{"r":[[i,v]..],"t":exc|null},          `C03.SplitX.run (toSplitX cs …)`: values and exception   (theorem c05_split_agreesX)
+          "sfill":{"c05":{"r":[v..],"t":..},"c03":[v..]},  Split driven by fill+compute: `C05.splitFillRun` / `C03.splitFillAll`+`splitCompute` (c05_splitFillRun_agrees)
           "fill":[{"c05":{"r":[v..],"t":..},"c03":[v..]}..]}   per branch: `C05.fillRun` / `C03.fillBuf`+compute (c05_fillRun_agrees)
   {"op":"fr","brs":[{"tag":t,"N":n,"rst":b,"bi":b,"yor":b}..],"m":n|null,"copy_buf":bool,"xs":[ints]}
       every branch: `FillRequest(Rec(tag), bufsize=N, reset=rst, buffer_input=bi, buffer_output=not bi, yield_on_remainder=yor)`
@@ -110,8 +112,15 @@ def fcJson (branches : List (List C05.Spec)) (bufsize : Option Nat) (copyBuf : B
       let r := C05.splitRunTagged cs bufsize flow
       let tr := (toSplit cs bufsize copyBuf).runTrace flow
       let fills := (List.range cs.length).zip cs |>.map (fun (p : Nat × C05.Chain Flow.AccState Flow.Value) => fillJson p.1 p.2 flow)
+      let rx := (toSplitX cs bufsize copyBuf).run flow
+      let sf := C05.splitFillRun cs flow
+      let sf3 := (C03.splitCompute (C03.splitFillAll ((C05.initActive 0 cs).map toBranch) flow).1).1
       Json.mkObj [("c05", Json.mkObj [("r", taggedJson r.vals), ("t", termJson r.term)]),
-        ("c03", taggedJson (tagOuts tr)), ("fill", Json.arr fills.toArray)]
+        ("c03", taggedJson (tagOuts tr)),
+        ("c03x", Json.mkObj [("r", taggedJson (tagOuts rx.trace)), ("t", termJson (termExc rx.term))]),
+        ("sfill", Json.mkObj [("c05", Json.mkObj [("r", ofList valueJson (sf.vals.map Prod.snd)), ("t", termJson sf.term)]),
+          ("c03", ofList valueJson sf3)]),
+        ("fill", Json.arr fills.toArray)]
 
 /-! ### op "fr": C16 ↔ C03 -/
 
